@@ -526,6 +526,7 @@ def run(ctx):
     if ctx.prop == "C15" and not getattr(ctx, "_sharing", False):
         from .common import share
         share(ctx, "C14", ("R14.1", "R14.2"), "R15.8", "write-set obligations shared with C14", 6)
+        share(ctx, "C13", ("R13.3",), "R15.8", "short-name obligations shared with C13 (a refused short name is not stored: the usage text would list a spelling that was never declared)", 3)
         share(ctx, "C13", ("R13.1", "R13.2"), "R15.8", "uniqueness obligations shared with C13 (a name declared in two groups is listed twice)", 4)
     # ---- R15.3
     used = set()
@@ -642,6 +643,32 @@ def run(ctx):
                                ("description_", lambda e: e.get("expr") is not None and "description_" in fmt(e["expr"]))):
                 okp, pth = cfg.must_happen_before_exit(bf, pred)
                 ctx.check(okp, "R15.4", bf, "consulted-on-every-path:" + what, "base::format can finish (B%s) without consulting %s: on that path the line cannot show it" % ("->B".join(map(str, pth or [])), what), bf)
+            # the environment hint is shown for EVERY bound variable: apart from the `has_env()` test itself nothing may stand between the
+            # entry and the insertion of the hint (a further condition - "unless the description already mentions it" - hides it for some options)
+            def _is_hint(e):
+                x = e.get("expr")
+                if x is None:
+                    return False
+                t0 = fmt(x)
+                return "env_" in t0 and ("push_back" in t0 or "emplace_back" in t0 or " = " in t0 or "<<" in t0) and "has_env()" not in t0 and "environment" in t0
+
+            def _not_unbound_edge(b, to, lab):
+                c = bf.term(b).get("cond")
+                if c is None:
+                    return True
+                c1, neg = cfg.strip_not(c)
+                t1 = fmt(ir.unwrap(c1))
+                if t1 in ("has_env()", "this->has_env()"):
+                    return lab != ("true" if neg else "false")
+                if t1 in ("env_.empty()", "this->env_.empty()", "env().empty()"):
+                    return lab != ("false" if neg else "true")
+                return True
+            if cfg.find_elems(bf, _is_hint):
+                okh, pth = cfg.must_happen_before_exit(bf, _is_hint, edge_ok=_not_unbound_edge)
+                ctx.check(okh, "R15.4", bf, "env-hint-whenever-bound", "base::format can finish (B%s) without the environment hint although a variable is bound: besides `has_env()` a further "
+                          "condition guards the hint, so some options that ARE read from their variable no longer say so" % "->B".join(map(str, pth or [])), bf, why_ok="only the has_env() test guards the hint")
+            else:
+                ctx.broken("R15.4", bf, "env-hint-whenever-bound", "the statement that adds the environment hint was not found: idiom not recognised", bf)
             ctx.check(re.search(r"text = join\(description", txt) is not None and "format_padded(%s, text, 40, 80)" % buf in txt, "R15.4", bf, "text-wrapped-into-line", "the joined description is not handed to the wrapper on the line buffer", bf)
             ctx.check("(%s << %s.str())" % (target, buf) in txt, "R15.4", bf, "line-written-to-target", "the finished line is not inserted into the target stream", bf)
             # the private buffer must stay private: nothing of the target stream's state may be copied into it
